@@ -88,3 +88,11 @@ package main
 //@   wires Tags tags
 //@   wires OnlyModels onlyModels
 //@   wires MinSizedInts minSizedInts
+
+// ---- where the environment may be consulted (C12) --------------------------------
+// The emitted bytes depend on schema content and options only. The directory of an
+// OUTPUT path is taken to create it before writing; it names a place to write to and
+// never reaches the bytes written.
+//@ func init$1@environment
+//@   props C12
+//@   envdep Dir: the directory of an output file is created before the file is written; the name does not reach the emitted bytes
